@@ -626,6 +626,24 @@ func cmdSelftest(args []string) int {
 			continue
 		}
 		failed, rej, err := runMutant(*repo, m, 10)
+		// obligations listed as known findings fail on the unchanged tree too: they say nothing about the mutant
+		{
+			var known KnownFile
+			readJSON(filepath.Join(*verif, "known_findings.json"), &known)
+			var keep []string
+			for _, f := range failed {
+				listed := false
+				for _, k := range known.Findings {
+					if k.Obligation == f {
+						listed = true
+					}
+				}
+				if !listed {
+					keep = append(keep, f)
+				}
+			}
+			failed = keep
+		}
 		status := "CAUGHT"
 		if err != nil {
 			status = "ERROR " + err.Error()
